@@ -389,6 +389,24 @@ def from_wire(v):
     return v
 
 
+def text_drift(raw, got, path=()):
+    """paths at which the model's resolved value and the implementation's stored value are BOTH text and differ.  Typed conversions
+    (text -> number, boolean, date, network, bytes, decoded JSON) are not text on the implementation side and are skipped (C15 / C18);
+    the one text-to-text normalisation the library documents is the capitalised Effect of a statement."""
+    if isinstance(raw, dict) and isinstance(got, dict):
+        for k, v in raw.items():
+            if k in got:
+                yield from text_drift(v, got[k], path + (k,))
+    elif isinstance(raw, list) and isinstance(got, list):
+        if len(raw) == len(got):
+            for n, (a, b) in enumerate(zip(raw, got)):
+                yield from text_drift(a, b, path + (n,))
+    elif isinstance(raw, str) and isinstance(got, str) and raw != got:
+        if path and path[-1] == "Effect" and raw.capitalize() == got:
+            return
+        yield path
+
+
 class E2ESurface(core.Surface):
     """parse(t).resolve(extra) against Template.resolve_model.  Both sides end with the same re-validation
     CFModel(**plain) (pydantic + generic casting: leaf oracles here, the subject of C15/C18), so what is compared is
@@ -420,10 +438,20 @@ class E2ESurface(core.Surface):
             dv.pop("Conditions", None)
             dv.pop("Resources", None)
             d = CFModel(**dv, Conditions=out["Conditions"], Resources=out["Resources"]).model_dump()
-            return {"Conditions": resgen.to_wire(d["Conditions"]), "Resources": resgen.to_wire(d["Resources"])}
+            return {"Conditions": resgen.to_wire(d["Conditions"]), "Resources": resgen.to_wire(d["Resources"]),
+                    "_raw": r[1].get("Resources")}
         return core.impl_call(reval)
 
     def agree(self, x, i, m):
+        if m[0] == "OK" and isinstance(m[1], dict) and "_raw" in m[1]:
+            # the model's resolved TEXT, before any re-validation by the library, against what the implementation stored: where both
+            # are text they are the same text.  (The final comparison below goes through CFModel(**plain) on BOTH sides, so a
+            # validation layer that rewrites text -- seeded change C01-r6Cm2: str_strip_whitespace on one Properties class -- would
+            # rewrite the model's answer too.)
+            raw = m[1]["_raw"]
+            m = ("OK", {k: v for k, v in m[1].items() if k != "_raw"})
+            if i[0] == "OK" and isinstance(i[1], dict) and list(text_drift(raw, i[1].get("Resources"))):
+                return False
         if x.get("valid") and i[0] == "EXC":
             # a template that is valid by construction (instances of the live schema, functions only where text is expected): an
             # exception from parse / resolve is never "the same failure on both sides" -- the model side ends with the same
@@ -603,6 +631,13 @@ class SequenceE2ESurface(E2ESurface):
         return ("OK", out)
 
     def agree(self, x, i, m):
+        if m[0] == "OK" and isinstance(m[1], list):
+            raws = [z.get("_raw") if isinstance(z, dict) else None for z in m[1]]
+            m = ("OK", [{k: v for k, v in z.items() if k != "_raw"} if isinstance(z, dict) else z for z in m[1]])
+            if i[0] == "OK" and isinstance(i[1], list) and len(i[1]) == len(raws):
+                for raw, got in zip(raws, i[1]):
+                    if raw is not None and isinstance(got, dict) and list(text_drift(raw, got.get("Resources"))):
+                        return False
         return core.Surface.agree(self, x, i, m)
 
     frozen = frozenset({"share", "fresh_models"})
